@@ -21,7 +21,7 @@ RULE = (
     "each evaluation is one seeded client session of 1-5 update requests (1-3 operations each: INSERT DATA, DELETE DATA, DELETE WHERE, "
     "DELETE/INSERT/both ... WHERE with WITH / USING / USING NAMED / GRAPH <g> / GRAPH ?g in templates and pattern, CLEAR/DROP "
     "DEFAULT|NAMED|ALL|GRAPH [SILENT], ADD/MOVE/COPY incl. source = target and missing graphs; templates whose deletions and insertions of "
-    "different solutions overlap, unbound variables, literals in illegal positions, blank nodes) applied to one evolving Memory store "
+    "different solutions overlap, unbound variables, literals in illegal positions, blank nodes; written with full IRIs, with a prefix the handle's bindings supply, with a PREFIX or BASE declared once before the first operation while the handle binds the prefix otherwise, or issued with initBindings incl. falsy terms) applied to one evolving Memory store "
     "through a Graph, a named Graph view, a ConjunctiveGraph or a Dataset handle with SPARQL_DEFAULT_GRAPH_UNION on or off; after every "
     "request all quads of the store are compared (up to a bijection on blank nodes created by the request) with a reference transformer "
     "implementing SPARQL 1.1 Update section 3 over dict name -> set with its own bottom-up WHERE evaluator; distinct = distinct trace "
